@@ -30,6 +30,23 @@ CLAIMED["C05"] = dict(
    note="Snapshots are taken through the read-only cfg-gated inspector; at most one slot is in Sending per configuration.",
    technique="deterministic simulation: seeded slot-state histories + hostile frame injection with whole-storage snapshot oracle", section="DESIGN.md §4 C05")
 
+CLAIMED["C09"] = dict(
+   text="Seeded networks of 0..capacity+2 simulated ESCs (capacity 4/8/16) with generated EEPROMs, stale station addresses (duplicates included), mailboxes, DC flags, 4/8 byte SII, drawn group assignment, run through the real MainDevice::init; oracle: count, station address register of every ring position, per-device identity/name/alias/DC support against the description of the device at that position, exactly-one-group membership, PRE-OP everywhere, Capacity error above capacity, empty groups for an empty network; a second batch injects SII busy polls and delayed PRE-OP/mailbox replies.",
+   note="Trusts the segment reference model (sim/src/esc) and the EEPROM image generator; chain topology; ports are not publicly readable and are not compared.",
+   technique="deterministic simulation: real init against an executable EtherCAT segment reference model under virtual time, seeded network configurations and device-side lag injection", section="DESIGN.md §4 C09")
+CLAIMED["C12"] = dict(
+   text="Generated well-formed EEPROM images (random descriptions incl. NUL/non-ASCII strings, categories in any order with unknown ones interleaved, 4 Kbit..4 Mbit) served through the simulated SII register protocol (4/8 byte data window, busy polls); 20..50 (start word, length) ranges per device incl. odd lengths and the last words, typed reads, eeprom_size, description, and (via init) name/identity; every returned byte and count is compared with the image.",
+   note="Well-formed = reserved bits zero, enumerations within defined values. Word addresses are 16 bit, so only the first 128 KiB of larger images are reachable. Parsed SM/FMMU/PDO values are checked through the registers in C08.",
+   technique="deterministic simulation: real EEPROM stack over a simulated SII state machine with device-side lag, seeded images and ranges, byte-exact oracle", section="DESIGN.md §4 C12")
+CLAIMED["C13"] = dict(
+   text="Hostile EEPROM images (blank, random, structured-then-mutated: hostile category lengths, no end marker, size word >= 511, bit flips, index/count extremes, truncation, maximal PDO bit sums) on a simulated device; init, description, eeprom_size, an extreme range read and into_op run under catch_unwind with a step budget and a per-word SII read counter; the batch runs twice, in a release build and in a build with overflow checks and debug assertions.",
+   note="Budget: 3e6 executor steps per operation; a single SII word read more than 70000 times counts as a loop.",
+   technique="deterministic simulation with device-side fault injection (sii_garbage) under two arithmetic profiles; panic/step/loop monitors", section="DESIGN.md §4 C13")
+CLAIMED["C14"] = dict(
+   text="set_alias_address over random header words and alias values with 0..25 injected SII command errors, busy polls or a permanently busy device, and typed generic writes of 1/2/4/8 bytes at drawn word addresses; oracle: the EEPROM array diff equals {alias word, CRC word} with the CRC-8 recomputed independently, alias reported, bounded write commands, busy => timeout, generic writes store exactly the bytes (odd tail zero padded).",
+   note="The model stores a word when the write command executes; command-error and busy bits follow the ESC datasheet.",
+   technique="deterministic simulation: real EEPROM write path over a simulated SII with injected command errors/busy, array-diff oracle", section="DESIGN.md §4 C14")
+
 NA = {
  "C19": "pure function of its input (a proc-macro and the code it generates): no schedule, clock, fault, I/O or second party for a simulator to control; input generation alone is not simulation (DESIGN.md §4 C19)",
 }
